@@ -113,7 +113,13 @@ where
     }
 
     fn poll_close(mut self: Pin<&mut Self>, ctx: &mut Context<'_>) -> Poll<io::Result<()>> {
-        self.with_context(ctx, |s| s.shutdown())
+        if !self.0.get_ref().shutdown_sent() {
+            std::task::ready!(self.with_context(ctx, |s| s.shutdown()))?;
+            self.0.get_mut().set_shutdown_sent();
+        }
+        // `shutdown` only hands the close_notify alert to the underlying stream, which may
+        // buffer it: flush, or the peer never sees the close.
+        self.with_context(ctx, |s| s.get_mut().flush())
     }
 }
 
